@@ -26,6 +26,11 @@ def check(ctx):
     a = ctx.a
     from .c03 import framing_premise
     framing_premise(ctx, 'S-FRAME', 'a SUBACK/UNSUBACK that is mis-framed leaves its request pending or answers another one')
+    # "under a fresh packet identifier": fresh is what the allocator guarantees (C17's rules)
+    from .common import run_premise
+    run_premise(ctx, "C17", "S-IDS", "identifiers", "the identifier given to a SUBSCRIBE / UNSUBSCRIBE is not carried by another unfinished request",
+                "a new request takes the identifier (and the window slot) of one that is still waiting: the older Deferred is orphaned "
+                "with its timer running, the acknowledgement settles the wrong request")
     ty = types(a)
     caps, pm, _ = capabilities(a)
     classes = [c for c in a.protos if "sub" in caps.get(c.qual, set())]
